@@ -27,6 +27,14 @@ def load_known():
 
 def func_hashes(names):
     out = {}
+    # source files that are analysed as text (Cython wrappers)
+    for fn in ('cudd.pyx', 'cudd_zdd.pyx', 'sylvan.pyx', 'buddy.pyx'):
+        if any(n == 'pyx:' + fn for n in names):
+            try:
+                out['dd/' + fn] = hashlib.sha256(open(os.path.join(base.REPO, 'dd', fn), 'rb').read()).hexdigest()[:16]
+            except OSError as e:
+                out['dd/' + fn] = 'unavailable: ' + type(e).__name__
+    names = [n for n in names if not n.startswith('pyx:')]
     for qn in names:
         try:
             parts = qn.split('.')
